@@ -7,6 +7,7 @@ NMT == {2, 3, 4, 5}
 Pw == {1, 2, 3, 4}
 SpAll == {"separated", "nearEqual", "simpleStructure"}
 DBoth == {"real", "complex"}
+GapsAll == {"none", "gaps"}
 Blocks == { <<2, 2>>, <<3, 2, 2>>, <<1, 3>>, <<2, 2, 2, 2>> }
 Emit == phase = "done" => PrintT(<<"@@", ToJson([cfg |-> cfg, pred |-> pred])>>)
 =============================================================================
